@@ -14,7 +14,8 @@ Oracle = pairing model built from unique payload tags:
   * every SendQuicStreamData/ResetQuicStream/StopSendingQuicStream targets a (connection, stream id) of a known
     pair; stream data carries only payloads the *partner* stream received, in order, at most once, all of them when
     the run is complete; FIN/RESET appear on a stream only if the partner direction was finished/reset (same error
-    code), at most once, and no data follows; nothing is sent in a direction a unidirectional stream does not have;
+    code), at most once, and no data follows; a RESET stays a RESET on the partner stream (it may degrade to FIN only
+    while a hook of that stream is pending, because the close is then relayed later); nothing is sent in a direction a unidirectional stream does not have;
   * datagrams are relayed as datagrams; after a connection is closed nothing is sent to it.
 """
 from hypothesis import strategies as st
@@ -58,6 +59,7 @@ class Pair:
         self.ids[init] = peer_id
         self.sent = [[], []]  # payloads received from side X (to be relayed to 1-X)
         self.term = [None, None]  # how side X finished its sending direction: None | "fin" | ("reset", code)
+        self.reset_must_survive = [False, False]
 
     def can_send(self, side):
         return (not self.uni) or side == self.init
@@ -222,6 +224,11 @@ def check_case(case, ctx):
                     continue
                 p.term[side] = ("reset", op[3])
                 flags.add("reset")
+                if p not in held_pairs() and _id_on(lay, p, 1 - side) is not None:
+                    # no hook of this stream is pending and the partner stream exists: the stream layer handles the
+                    # reset synchronously, so it has to reach the partner as a RESET (not degrade to a clean FIN)
+                    p.reset_must_survive[side] = True
+                    flags.add("reset-from-%s:%s" % (NAMES[side], "ids-differ" if p.ids[side] != _id_on(lay, p, 1 - side) else "ids-equal"))
                 if d.held:
                     hold_events[0] += 1
                 d.feed(qe.QuicStreamReset(conns[side], sid, op[3]))
@@ -392,6 +399,10 @@ def check_case(case, ctx):
                     ctx.fail("fin-or-reset-without-cause:%s" % p.cls(), "%r towards %s but the partner direction is still open" % (term, NAMES[dst]))
                 elif isinstance(term, tuple) and (not isinstance(p.term[src], tuple) or p.term[src][1] != term[1]):
                     ctx.fail("reset-code-changed:%s" % p.cls(), "partner finished with %r, relayed %r" % (p.term[src], term))
+                elif term == "fin" and p.reset_must_survive[src]:
+                    ctx.fail("reset-relayed-as-clean-fin:%s:from-%s" % (p.cls(), NAMES[src]),
+                             "stream %r reset by the %s with %r while no hook was pending; partner got a clean end-of-stream"
+                             % (p.ids, NAMES[src], p.term[src]))
             if complete and p.ids[dst] is not None:
                 if len(g) != len(s):
                     ctx.fail("data-not-relayed:%s" % p.cls(), "stream %r: %d of %d payloads relayed towards %s" % (p.ids, len(g), len(s), NAMES[dst]))
